@@ -26,7 +26,8 @@ class ArmMachine:
             self.mem.cells[(STATE + self.ws * i, self.ws)] = words[i].copy()
         self.reg = {}
         self.sent = {}
-        saved = ["x%d" % i for i in range(19, 30)] if a64 else ["r4", "r5", "r6", "r7", "r8", "r9", "r10", "r11"]
+        # x18 is the AAPCS64 platform register (reserved on Darwin, Windows and with shadow call stacks; "software that is intended to be portable should avoid it"): it must come back unchanged too
+        saved = ["x%d" % i for i in range(18, 30)] if a64 else ["r4", "r5", "r6", "r7", "r8", "r9", "r10", "r11"]
         for i, r in enumerate(saved):
             self.sent[r] = np.full(self.N, (0xA5A50000 + i), self.T)
             self.reg[r] = self.sent[r].copy()
@@ -382,7 +383,7 @@ def run(rep, variant, X, tier):
         for r, v in m.sent.items():
             cur = m.reg.get(r)
             if not isinstance(cur, np.ndarray) or not (cur == v).all():
-                problems.append("callee-saved register %s not restored" % r)
+                problems.append(("platform register %s (AAPCS64) changed" if r == "x18" else "callee-saved register %s not restored") % r)
         if m.reg.get("sp") != SP0:
             problems.append("stack pointer not restored (entry%+d)" % (m.reg.get("sp", 0) - SP0))
         for pmsg in sorted(set(problems))[:4]:
@@ -397,7 +398,7 @@ def run(rep, variant, X, tier):
         for r, v in m.sent.items():
             cur = m.reg.get(r)
             if not isinstance(cur, np.ndarray) or not (cur == v).all():
-                problems.append("callee-saved register %s not restored" % r)
+                problems.append(("platform register %s (AAPCS64) changed" if r == "x18" else "callee-saved register %s not restored") % r)
         if m.reg.get("sp") != SP0:
             problems.append("stack pointer not restored (entry%+d)" % (m.reg.get("sp", 0) - SP0))
         return out, problems
